@@ -157,6 +157,8 @@ def run_shard(spec, res):
                     continue
                 pairs = []
                 for k1 in range(n_ev):
+                    if events[k1]['kind'] == 'rollback':
+                        continue
                     for k2 in range(k1 + 1, n_ev + 6):
                         pairs.append(((k1, rng.choice(['DL', 'DLR', 'ERR'])),
                                       (k2, rng.choice(['DL', 'DLR', 'ERR']))))
@@ -176,6 +178,7 @@ def run_shard(spec, res):
                 after = dbdump.take(svc.app.db_path)
                 res.count('injections')
                 k, kind = job[0]
+                k = min(injs[0].k, n_ev - 1)     # (deferred to an applicable event)
                 skind = kind_of(events[k]['sql']) \
                     if events[k]['kind'] == 'stmt' else events[k]['kind']
                 is_alloc_write = name.startswith((
